@@ -282,6 +282,8 @@ func (e *Exec) strAxiomsFor(as []*Node) *Node {
 	return And(cs...)
 }
 
+var noRetry bool
+
 func discharge(obls []*Obligation, timeout int, all bool, workers int) {
 	type job struct {
 		o      *Obligation
@@ -299,7 +301,7 @@ func discharge(obls []*Obligation, timeout int, all bool, workers int) {
 			defer wg.Done()
 			for j := range ch {
 				r := Solve(j.script, timeout, j.o.Strings, all)
-				if r.Verdict == "unknown" && !j.o.Cover {
+				if r.Verdict == "unknown" && !j.o.Cover && !noRetry {
 					// solver instability guard: one retry with other seeds and a longer budget before an
 					// obligation is reported as undischarged
 					r2 := SolveSeeded(j.script, timeout*3, j.o.Strings, 7)
